@@ -143,7 +143,7 @@ impl RustDocument {
             return;
         }
 
-        let abbreviation = make_abbreviated_namespace(url, &self.namespaces);
+        let abbreviation = make_prefix(url, &self.namespaces);
 
         let rust_mod_name = create_mod_name_for_namespace(&abbreviation);
         let ns = Rc::new(Namespace {
@@ -196,7 +196,7 @@ impl RustDocument {
                 .find(|ns| ns.namespace == namespace)
                 .cloned()
                 .unwrap_or_else(|| {
-                    let abbreviation = make_abbreviated_namespace(namespace, &self.namespaces);
+                    let abbreviation = make_prefix(namespace, &self.namespaces);
                     let rust_mod_name = create_mod_name_for_namespace(&abbreviation);
 
                     Rc::new(Namespace {
@@ -467,6 +467,17 @@ where
         crate::verif::emit("helpers", None);
 
         Ok(())
+    }
+}
+
+/// The abbreviation as the output uses it. XML reserves every name that begins with "xml": a document must not bind
+/// such a prefix, so a namespace whose abbreviation would be one gets a neutral prefix instead.
+fn make_prefix(namespace: &str, existing_namespaces: &[Rc<Namespace>]) -> String {
+    let abbreviation = make_abbreviated_namespace(namespace, existing_namespaces);
+    if abbreviation.starts_with("xml") {
+        make_abbreviated_namespace("ns", existing_namespaces)
+    } else {
+        abbreviation
     }
 }
 
